@@ -439,6 +439,32 @@ def run(ctx):
     block_matvec(ctx)
     gf_algebra(ctx)
     space_hash(ctx)
+    combinator_shapes(ctx)
+
+
+def combinator_shapes(ctx):
+    """Discrete combinators announce the shape and dtype of the map they denote, and keep their operands in the slots
+    the term rules read."""
+    r = ctx.rule("COMBINATOR-SHAPE", "discrete sum / product / scaled operators: shape and dtype of the denoted map (product: rows of the left, columns of the right factor; dtype = result type of the parts); operands stored in the slots _matvec reads", 3)
+    dm = ctx.repo.mod(DO)
+    spec = {
+        "_ScaledDiscreteOperator": (("op", "alpha"), "_np.result_type(%(a)s.dtype,type(%(b)s))", "%(a)s.shape", {"self._op": 0, "self._alpha": 1}),
+        "_SumDiscreteOperator": (("op1", "op2"), "_np.result_type(%(a)s.dtype,%(b)s.dtype)", "%(a)s.shape", {"self._op1": 0, "self._op2": 1}),
+        "_ProductDiscreteOperator": (("op1", "op2"), "_np.result_type(%(a)s.dtype,%(b)s.dtype)", "(%(a)s.shape[0],%(b)s.shape[1])", {"self._op1": 0, "self._op2": 1}),
+    }
+    for cname, (_, dt, shp, slots) in spec.items():
+        fn = dm.fn(cname + ".__init__")
+        defs = roles.Defs(fn)
+        pa = arg_names(fn)[1:]
+        sup = [c for c in ast.walk(fn) if isinstance(c, ast.Call) and unparse(c.func).endswith("__init__") and len(c.args) == 2]
+        sub = {"a": pa[0], "b": pa[1]}
+        alt_dt = {dt % sub, (dt % {"a": pa[1], "b": pa[0]}) if "type(" not in dt else dt % sub}
+        St = {s.target: s.value for s in roles.stores(fn.body, defs, lv=False) if s.op == "=" and not s.loops}
+        ok = len(sup) == 1 and roles.canon(sup[0].args[0], defs).replace(" ", "") in alt_dt and roles.canon(sup[0].args[1], defs).replace(" ", "") == shp % sub \
+            and all(St.get(k) == pa[i] for k, i in slots.items())
+        r.check(ok, cname, DO, cname + ".__init__", fn.lineno, "shape/dtype of " + cname,
+                "announces dtype `%s`, shape `%s`, slots %s; expected dtype %s, shape %s, slots %s" % (
+                    roles.canon(sup[0].args[0], defs)[:60] if sup else None, roles.canon(sup[0].args[1], defs)[:60] if sup else None, {k: St.get(k) for k in slots}, dt % sub, shp % sub, {k: pa[i] for k, i in slots.items()}))
 
 
 def space_hash(ctx):
